@@ -12,7 +12,7 @@ import (
 // concurrency; success only when the packet was written completely.
 func TestC08WholePackets(t *testing.T) {
 	rapid.Check(t, func(rt *rapid.T) {
-		h := newH(rt, "C08", sim.Options{Config: baseConfig()})
+		h := newH(rt, "C08", asVolatileSession(rt, sim.Options{Config: baseConfig()}))
 		split, overlap := false, false
 		defer func() { h.finish(split || overlap) }()
 
